@@ -26,6 +26,9 @@
  *     UT <name> <value>                coap_op_obs_cnt_track_observe
  *     UC <name>                        coap_op_obs_cnt_deleted
  *     UR <name> <pkt>                  coap_op_dyn_resource_added
+ *     UO <proto> <key> <tuple> <pkt> <osc|~>  coap_op_observe_added for a session of that transport
+ *     UP <proto> <name> <pkt>          coap_op_dyn_resource_added from a session of that transport
+ *                                      (coap_proto_t as a number; UA / UR = COAP_PROTO_UDP)
  *     UX <name>                        coap_op_resource_deleted
  *     W <file> <bytes>          (between processes only) overwrite a persistence file
  *   Static resources "s0" and "s1" (observable) exist before coap_persist_startup.
@@ -89,6 +92,7 @@ typedef struct {
   char kind[3];
   int client;
   long k;
+  int proto;
   uint8_t *a, *b, *c, *d;
   size_t na, nb, nc, nd;
   int d_absent;
@@ -261,7 +265,7 @@ static void do_event(event_t *e) {
     coap_str_const_t name = {e->na, e->a};
     memset(&fs, 0, sizeof(fs));
     fs.context = g_ctx;
-    fs.proto = COAP_PROTO_UDP;
+    fs.proto = (e->kind[1] == 'A' || e->kind[1] == 'R') ? (coap_proto_t)e->proto : COAP_PROTO_UDP;
     coap_lock_lock(g_ctx, return);
     switch (e->kind[1]) {
     case 'A': {
@@ -271,7 +275,7 @@ static void do_event(event_t *e) {
       memcpy(&key, e->a, e->na < sizeof(key) ? e->na : sizeof(key));
       memset(&t, 0, sizeof(t));
       memcpy(&t, e->b, e->nb < sizeof(t) ? e->nb : sizeof(t));
-      coap_op_observe_added(&fs, key, COAP_PROTO_UDP, &g_listen, &t, &pkt,
+      coap_op_observe_added(&fs, key, fs.proto, &g_listen, &t, &pkt,
                             e->d_absent ? NULL : &osc, NULL);
       break;
     }
@@ -625,6 +629,15 @@ static int parse_case(void) {
   while (i < vntok) {
     event_t *e = &cs.ev[cs.nev++];
     strncpy(e->kind, vtok[i], 2);
+    e->proto = COAP_PROTO_UDP;
+    if (!strcmp(vtok[i], "UO") || !strcmp(vtok[i], "UP")) {
+      /* the same calls as UA / UR with the transport as first argument */
+      if (i + 1 >= vntok) return 0;
+      e->proto = atoi(vtok[i + 1]);
+      e->kind[1] = vtok[i][1] == 'O' ? 'A' : 'R';
+      vtok[i + 1] = e->kind[1] == 'A' ? (char *)"UA" : (char *)"UR";
+      i += 1;
+    }
     if (!strcmp(vtok[i], "I")) { e->client = atoi(vtok[i + 1]); e->a = tokb(i + 2, &e->na); i += 3; }
     else if (!strcmp(vtok[i], "N")) { e->a = tokb(i + 1, &e->na); i += 2; }
     else if (!strcmp(vtok[i], "X")) { e->k = atol(vtok[i + 1]); i += 2; }
